@@ -34,7 +34,7 @@ INF = 1 << 20
 
 
 def scn(sym, cov, props, D, T=2, cancel=None, cancel2=None, toggle=None, stubborn=None, deadlines=(), redeadline=None,
-        shields="sym", in_child=False, eager=False, J=2, pre_cancel=None, helper=None, native_after=False, post0=False, redeadline2=False, script=(), raise_at=None, dl_may_be_inf=False, pre_native=False, deadline_outside=None):
+        shields="sym", in_child=False, eager=False, J=2, pre_cancel=None, helper=None, native_after=False, post0=False, redeadline2=False, script=(), raise_at=None, dl_may_be_inf=False, pre_native=False, deadline_outside=None, native_child_cancel=None):
     """props: set of property ids whose clauses are enforced.
     cancel / cancel2: level whose scope is cancelled by the environment at a symbolic instant (or None)
     toggle: (level, value): scope[level].shield = value at a symbolic instant
@@ -47,6 +47,9 @@ def scn(sym, cov, props, D, T=2, cancel=None, cancel2=None, toggle=None, stubbor
     pre_native: the host task already carries one native cancellation request (Task.cancel() swallowed earlier)
     deadline_outside: 'before' assigns the level-0 deadline through the setter BEFORE the scope is entered,
         'after' assigns a finite deadline to the level-0 scope AFTER it has been left
+    native_child_cancel: level -- after its first operation the innermost level creates a task with asyncio.create_task()
+        which immediately cancels that level's scope (on the eager task factory this happens INSIDE the creator's step);
+        whether the levels perform their post-operations at all is symbolic (`skip_post`)
     raise_at: (level, kind): the level's post-operation is replaced by raising -- 'value' a ValueError, 'group' an
         ExceptionGroup holding only a ValueError, 'foreign-chain' sleep(post) and, if that is interrupted, an OSError during
         whose handling a CancelledError not tagged by any cancel scope is raised, 'group+cancel' sleep(post) and, if that is interrupted, a
@@ -83,6 +86,7 @@ def scn(sym, cov, props, D, T=2, cancel=None, cancel2=None, toggle=None, stubbor
     for (kind, lv, val, tt, jj) in script:  # concrete, scripted environment actions
         evs.append({"kind": kind, "level": lv, "value": val, "inf": val == "inf", "t": tt, "j": jj})
     nsw = sym.int("nsw", 1, 3) if stubborn is not None else 0
+    skip_post = sym.bool("skip_post") if native_child_cancel is not None else False
     if native_after:
         nto = sym.int("nto", 0, T)  # asyncio.timeout(nto) around sleep(nsl) after the scopes
         nsl = sym.int("nsl", 0, T)
@@ -172,6 +176,14 @@ def scn(sym, cov, props, D, T=2, cancel=None, cancel2=None, toggle=None, stubbor
                 timeline.append((loop.cycles, loop.time(), "enter", i, (sh0[i], d)))
                 try:
                     await op(i, "pre", pre[i])
+                    if native_child_cancel is not None and i == D - 1:
+                        async def canceller():
+                            if native_child_cancel in active:  # (a scope that has been left is not touched)
+                                scopes[native_child_cancel].cancel()
+                                timeline.append((loop.cycles, loop.time(), "cancel", native_child_cancel, None))
+
+                        state["native_child"] = asyncio.create_task(canceller())
+                        state["native_child_ran_in_creator_step"] = state["native_child"].done()
                     if i + 1 < D:
                         await level(i + 1)
                     if raise_at is not None and raise_at[0] == i:
@@ -199,7 +211,7 @@ def scn(sym, cov, props, D, T=2, cancel=None, cancel2=None, toggle=None, stubbor
                             except asyncio.CancelledError as cexc:
                                 ex["raised"] = "group+cancel"
                                 raise BaseExceptionGroup("g", [cexc, ValueError("boom")])
-                    else:
+                    elif not skip_post:
                         await op(i, "post", post[i])
                 except asyncio.CancelledError as cexc_:
                     ex["raised"] = "foreign" if cexc_ is state.get("foreign_exc") else "cancel"
